@@ -275,6 +275,7 @@ func init() {
 	planRegistry["C07"] = planC07
 	planRegistry["C10"] = planC10
 	planRegistry["C13"] = planC13
+	planRegistry["C17"] = planC17
 	planRegistry["C08"] = planC08
 	planRegistry["C18"] = planC18
 	planRegistry["C14"] = planC14
@@ -910,5 +911,31 @@ func planC08(tier string) *Plan {
 	}
 	p.Outside = []string{"anti-MEV at N = 4 (9 messages: 362880 orders)", "N >= 5", "several consecutive rounds in one run (covered by the inductive step checks C05/C10 instead)", "a watch-only observer (not a validator): it does not decide from consensus messages when all commits reach it before the proposal -- observed, stated here, outside the statement"}
 	p.Explanation = "Bounded symbolic execution of the real Start/Reset/OnReceive sequence at one validator for a complete fault-free round: the executor forks on every choice of the next message, so every delivery order (including orders in which responses, pre-commits and commits precede the proposal, messages that arrive before the height is entered and go through the cache, and a duplicated message) is explored, each with all message contents symbolic. At the end of every order the solver proves: the block was handed over exactly once, in view 0, it is the proposed block; no ChangeView and no RecoveryRequest was broadcast; own proposal/response/commit at most once. No implicit panic on any path."
+	return p
+}
+
+func planC17(tier string) *Plan {
+	p := &Plan{Property: "C17", Tier: tier, Patterns: []string{".", "./internal/simulation"}, PanicsCount: true}
+	bounds := []int{2, 3, 4, 5}
+	if tier == "thorough" {
+		bounds = []int{2, 3, 4, 5, 6, 7, 8}
+	}
+	for _, b := range bounds {
+		p.Jobs = append(p.Jobs, &Job{Pkg: dbftPkg + "/internal/simulation", Entry: "H_sim", Solver: "z3-new", Want: []string{"C17"}, BudgetS: 600,
+			Params: map[string]int{"selbound": b}, Redirect: simRedirect})
+	}
+	p.MustCover = []string{"C17.event", "C17.block", "C17.loop.exit"}
+	p.MustAssert = []string{"C17.reinitialised", "C17.height", "C17.ledger"}
+	p.Assumptions = append([]string{
+		"the library instance is replaced by its CONTRACT, each clause of which is solver-checked on the real library code by the step checks: Start/Reset put the instance at CurrentHeight()+1 and undecided (C05.O3); an undecided instance may hand exactly one block, with index = its height, to ProcessBlock during an OnReceive/OnTimeout call and is decided afterwards (C02.O3, C05.O1); a decided instance ignores every timeout and payload until Reset (C05.O2)",
+		"the environment decides which select case is ready in each iteration (timer, message, cancellation): a fresh choice; whether an event completes the round is a fresh boolean",
+		"zap logging is stubbed",
+	}, commonAssumptions...)
+	p.Bounds = map[string]string{
+		"iterations": fmt.Sprintf("the real Run loop for up to %d iterations (every interleaving of timer expiries and messages, every choice of which events complete a round), then cancellation", bounds[len(bounds)-1]),
+		"nodes":      "ONE node's event loop with its real callbacks (ProcessBlock, CurrentHeight, CurrentBlockHash); the ledger height at start is symbolic",
+	}
+	p.Outside = []string{"goroutine schedules of the multi-node program, wall-clock pacing (\"roughly the configured block interval\"), agreement between nodes (C01) and the real payload/crypto code of internal/consensus (gob, SHA-256, ECDSA: not encodable, see C19) are NOT decided", "a violation is replayed by running the real simulation binary (4 validators, 13 s) and observing that no height beyond 1 is accepted"}
+	p.Explanation = "Symbolic execution of the simulation's real event loop (simNode.Run with its select, simNode.ProcessBlock, CurrentHeight) against the library's contract: the four library calls the loop makes are redirected to summaries that state exactly what the step checks prove about the real library. The solver explores every sequence of select outcomes up to the bound and proves that no timer expiry or message is ever delivered to an instance that has already handed its block over without having been re-initialised (such an instance never acts again, so the chain would stop), that the instance always works on the height after the application's tip, and that the application's ledger grows by exactly one per decided round."
 	return p
 }
